@@ -185,7 +185,14 @@ def tls_packets(ci, conn, ep, tcp):
             seq_items.insert(m, it)
             k = m
     pk = []
-    ic, is_ = t["isn_c"] & 0xFFFFFFFF, t["isn_s"] & 0xFFFFFFFF
+    def isn(v, srv):
+        """an ISN, or ["zero_at", k]: the value that puts the start of the k-th segment (mod n) of that direction at sequence number 0"""
+        if isinstance(v, (list, tuple)):
+            mine = [s_ for s_ in segs if s_["srv"] == srv]
+            a = mine[v[1] % len(mine)]["off"] if mine else 0
+            return (-1 - a) & 0xFFFFFFFF
+        return v & 0xFFFFFFFF
+    ic, is_ = isn(t["isn_c"], False), isn(t["isn_s"], True)
     if t["syn"]:
         pk.append(LPkt(ci, "tcp", False, b"", ep, ic, 0, 0x02, "SYN"))
         pk.append(LPkt(ci, "tcp", True, b"", ep, is_, ic + 1, 0x12, "SYNACK"))
